@@ -256,7 +256,8 @@ where
         assert!(s.mask().contains(ids[i]) == member[i], "C12: replaying the events does not reproduce the current membership");
     }
     witness!(live && present, "track: live handle, component present");
-    witness!(mods == 1, "track: one modification event");
+    witness!(mods == 1 || op >= 8, "track: one modification event (groups a, b)");
+    witness!(k >= 1 || op < 8, "track: an insertion/removal event (group c)");
     forget(reader);
     forget(s);
     forget(masked);
